@@ -1,6 +1,6 @@
 #!/usr/bin/env bash
 # Determinism proof: every property, N seeds, executed twice each in separate processes, with
-# different slicing (1, 4, 16 worker processes) and in both flavours; per-run digests of the full
+# different slicing (1, 4, 16 worker processes) and in the flavours named (std nostd big); per-run digests of the full
 # per-event logs are diffed. Prints DETERMINISTIC or the first diverging run.
 set -u
 cd /verif
@@ -9,7 +9,7 @@ PROPS="${2:-C01 C02 C03 C04 C05 C06 C07 C08 C09 C10 C11 C12 C13 C14 C15 C16 C17 
 FLAVS="${3:-std nostd}"
 rc=0
 for flav in $FLAVS; do
-  if [ "$flav" = "std" ]; then BIN=sim/target/release/cachesim; else BIN=sim/target-nostd/release/cachesim; fi
+  if [ "$flav" = "std" ]; then BIN=sim/target/release/cachesim; elif [ "$flav" = "big" ]; then BIN=sim/target-big/release/cachesim; else BIN=sim/target-nostd/release/cachesim; fi
   for p in $PROPS; do
     n=$N; [ "$p" = "C18" ] && n=$((N/20+1))
     d=$(mktemp -d /tmp/det.XXXXXX)
